@@ -582,7 +582,7 @@ def check_C03(ctx, replay=None):
     if gen is None:
         ctx.regen_failed = "regeneration failed: " + log[-2000:]
     check_core_policy(ctx, "C03", "C03.v",
-                      ["C03_compiled_program_is_decide", "C03_match_is_for_own_syscall", "C03_any_satisfied_list_matches",
+                      ["C03_compiled_program_is_decide", "C03_match_is_for_own_syscall", "C03_any_satisfied_list_matches", "C03_group_matches_iff", "C03_failing_condition_blocks_entry",
                        "C03_unmatched_entry_as_absent", "C03_programs_agree_without_unmatched_entry",
                        "C03_source_entry_is_the_model", "C03_source_merge_is_the_model", "C03_validated_entries_nondegenerate", "C03_nonvacuous"],
                       ["cond", "cond", "mixed", "mixed", "mixed_long", "condlong", "altmany", "pair_cond", "value_list"],
